@@ -25,7 +25,10 @@ an `Exception` (connection error, ...) or a `BaseException` that is not an `Exce
 which is how a backend command cut short by `asyncio.timeout()` / `wait_for` / a cancelled task ends on
 Python ≥ 3.11.  The handlers of the real code tell the two apart and so does the model:
   * `Transaction.commit`:   `except BaseException: await self._rollback(backends); raise`   — both kinds
-  * `Transaction._rollback`: `except Exception as exc: error = error or exc`                — a BaseException LEAVES the loop
+  * `Transaction._rollback`: `except Exception as exc: error = error or exc` / `except BaseException as exc: interrupt =
+                            interrupt or exc` … `if interrupt: raise interrupt`   — both kinds are passed over, every backend is
+                            rolled back, the first BaseException is re-raised at the end (repair 12f0cbb, D36; before it a
+                            BaseException LEFT the loop: `cfg.rbAll = false` keeps that old loop for the record)
   * `__aexit__`, `LockTransactionBackend.commit/rollback`: `try … finally`                  — both kinds
   * `asyncio.gather` in `_unlock_updates`: the awaiter gets the first exception, whatever its kind
 
@@ -160,9 +163,10 @@ structure Cfg where
   stepDt : Nat                  -- how much of the clock one `asyncio.sleep(step)` of the wait loop takes (any amount)
   env : Nat → List (Nat × Nat)  -- the environment: foreign locks (backend, lock key) released just before command `i`
   base : Nat → Bool             -- the kind of the exception a failing command `i` raises: true = BaseException only (cancellation)
-  rbAll : Bool                  -- the loop of `Transaction._rollback`: false = as in /repo (`except Exception` only: a
-                                --  BaseException leaves the loop); true = every backend is rolled back and the BaseException is
-                                --  re-raised at the end (proposed_fixes/C16_rollback_stops_at_baseexception.diff)
+  rbAll : Bool := true          -- the loop of `Transaction._rollback`: true (the default) = as in /repo since 12f0cbb: every
+                                --  backend is rolled back, a BaseException is re-raised at the end; false = the OLD loop
+                                --  (`except Exception` only: a BaseException left the loop) — kept only for the remark
+                                --  theorem `old_rollback_loop_left_locks` of Props/C16.lean
 
 /-- the kind of the exception command `i` raises if it is made to fail -/
 def Cfg.kindAt (cfg : Cfg) (i : Nat) : Kind := if cfg.base i then .baseException else .exception
@@ -471,15 +475,18 @@ def rollbackOne (cfg : Cfg) (t : TxB) : M Unit := tryFinally (M.pure ()) (unlock
 
 /-- `_rollback(backends)`:
 ```
-error = None
+error = None; interrupt = None
 for tx_backend in backends:
     try: await tx_backend.rollback()
     except Exception as exc: error = error or exc
+    except BaseException as exc: interrupt = interrupt or exc
+if interrupt: raise interrupt
 return error
 ```
-an `Exception` is remembered (the first one is returned: `.ok (some e)`) and the loop goes on; a BaseException is NOT
-caught: it leaves the loop — the backends after it are not rolled back — and propagates (`.err e`).
-With `cfg.rbAll` (the proposed repair) the loop goes on in that case too and the first BaseException is re-raised at the end. -/
+every backend is rolled back whatever fails; the first BaseException is re-raised at the end (`.err e`), otherwise the first
+`Exception` is returned (`.ok (some e)`).
+With `cfg.rbAll = false`: the loop as it was before 12f0cbb — `except Exception` only, a BaseException left the loop and
+the backends after it were not rolled back. -/
 def rollbackList (cfg : Cfg) : List TxB → FWorld → Res (Option Err) × FWorld
   | [], w => (.ok none, w)
   | t :: rest, w =>
